@@ -3,7 +3,7 @@
 cd /verif
 ALL=$(python3 -c "import json;print(' '.join(c['property_id'] for c in json.load(open('MANIFEST.json'))['checks']))")
 for d in "$@"; do
-  for f in $d/benign*.diff; do
+  for f in $d/*.diff; do
     echo "#### $f"
     tools/mutant.sh $f $ALL 2>&1 | grep "^== \|exit=\|VIOLATION\|INCONCL\|PATCH" | paste -s -d' ' | sed 's/== /\n== /g' | grep -v "exit=0$" | grep -v "^$"
   done
